@@ -9,6 +9,9 @@ Binding: call sequences produced by TLC (every transition of the Impl graph
         once; simulated behaviours over all 7 open kinds) and by a seeded
         driver are executed on the real FakedWBEMConnection; the recorded
         events are validated by TLC against the requirement machine.
+        Call dimensions: server of the process (1 or 2 FakedWBEMConnections,
+        foreign contexts), OperationTimeout (omitted, 0, 1, 40) and
+        ContinueOnError (omitted, False, True) of every Open.
 """
 import pywbem
 from pywbem import CIMInstanceName, CIMError
@@ -419,7 +422,7 @@ def run(ctx):
             label="Req liveness: repeated Pull(Max>0) terminates (WF)")
     ctx.tlc("PullSrvMC", "PullSrvMC2.cfg",
             label="Req safety, two servers in one process (foreign contexts, "
-            "Isolated), OperationTimeout {omitted, 0}")
+            "Isolated), all OperationTimeout values in the thorough tier")
     if not quick:
         ctx.tlc("PullSrvMC", "PullSrvMCBig.cfg", timeout=3000,
                 label="Req safety, larger constants + namespace removal/pull toggle")
@@ -472,10 +475,10 @@ def run(ctx):
     # ---- 3. spec -> code: call sequences from TLC ---------------------------
     trans = [(t[1], t[2], t[3]) for t in r_cover.printed("TR")]
     paths, nstates, ntrans = cover_paths(
-        trans, rng=ctx.rng, limit=450 if quick else 12000)
+        trans, rng=ctx.rng, limit=420 if quick else 12000)
     trans2 = [(t[1], t[2], t[3]) for t in r_cover2.printed("TR")]
     paths2, nstates2, ntrans2 = cover_paths(
-        trans2, rng=ctx.rng, limit=250 if quick else 5000)
+        trans2, rng=ctx.rng, limit=220 if quick else 5000)
     paths = paths + paths2
     ctx.extra["impl_graph"] = {"states": nstates, "transitions": ntrans,
                                "two_server_states": nstates2,
@@ -484,7 +487,7 @@ def run(ctx):
     drivers = []
     for i, calls in enumerate(paths):
         drivers.append(run_calls([vlib.unset(c) for c in calls], variant=i))
-    nsim = 100 if quick else 1200
+    nsim = 60 if quick else 1200
     r_sim, behs = ctx.simulate_behaviours(
         "PullSrvImpl", "PullSrvImplSim.cfg", nsim, 11,
         label="behaviour emission (7 open kinds, 2 namespaces)")
@@ -492,7 +495,7 @@ def run(ctx):
         drivers.append(run_calls(b, variant=i, wire=(i % 3 == 0)))
     ctx.extra["tlc_behaviours_replayed"] = len(behs)
     # ---- 4. code -> spec: seeded random histories ---------------------------
-    nrand = 900 if quick else 8000
+    nrand = 800 if quick else 8000
     for i in range(nrand):
         drivers.append(random_trace(ctx.rng, i, wire=(i % 4 == 0)))
     ctx.extra["traces_through_cimxml_facade"] = sum(
